@@ -18,7 +18,8 @@ RULE = ('connect: client.connect(MemoryReactorClock, address) for address lists 
         'connection whose busName is set iff the whole script was delivered, else with a failure; endpoints were tried in '
         'listed order and none after the first reachable one. loss: an established connection with 0-4 calls in flight '
         '(some with deadlines), proxies obtained with explicit interface objects / known names / introspection (incl. '
-        'two proxies for the same object), disconnect callbacks on the connection and on proxies (some cancelled again); '
+        'two proxies for the same object), disconnect callbacks on the connection and on proxies (some cancelled again), signal subscriptions on live '
+        'proxies (acknowledged by the bus or still unanswered); '
         'the transport is lost after EVERY prefix of the generated history; then late replies are delivered and the '
         'clock is run dry; oracle: every outstanding call errbacks exactly once with the loss reason, no delayed call '
         'remains, every registered not-cancelled callback ran exactly once, nothing fires afterwards. reentrant: 1-4 '
@@ -287,8 +288,8 @@ def _run_loss(case, lose_at):
     proxies = []        # dicts: obj, cbs:[{fn, active, hits}]
     pending_intro = []  # (serial, slot)
     try:
-        I.DBusInterface('org.verif.Known', I.Method('Echo', 's', 's'))
-        explicit = I.DBusInterface('org.verif.Explicit', I.Method('Echo', 's', 's'), noRegister=True)
+        I.DBusInterface('org.verif.Known', I.Method('Echo', 's', 's'), I.Signal('Sig', 'i'))
+        explicit = I.DBusInterface('org.verif.Explicit', I.Method('Echo', 's', 's'), I.Signal('Sig', 'i'), noRegister=True)
         rig.sent_messages()
 
         def do(op):
@@ -355,6 +356,18 @@ def _run_loss(case, lose_at):
                     cb['fn'] = lambda obj, reason, cb=cb: cb['hits'].append((obj, reason))
                     p['obj'].notifyOnDisconnect(cb['fn'])
                     p['cbs'].append(cb)
+            elif k == 'proxy_signal':
+                # a signal subscription on a live proxy, acknowledged by the bus (or still unanswered)
+                if proxies:
+                    p = proxies[op[1] % len(proxies)]
+                    got = []
+                    p['obj'].notifyOnSignal('Sig', lambda *a: None).addBoth(got.append)
+                    sent = [m for kk, m in rig.sent_messages() if kk == 'msg']
+                    if sent and op[1] % 3:
+                        N.deliver(rig.conn, R.encode_message(2, 904, {5: sent[0]['serial']}))
+                    elif sent:
+                        c = {'results': got, 'done': False, 'timeout': None, 'serial': sent[0]['serial'], 'deadline': None}
+                        calls.append(c)      # the AddMatch call itself is outstanding
             elif k == 'proxy_cb_cancel':
                 live = [(p, c) for p in proxies for c in p['cbs'] if c['active']]
                 if live:
@@ -463,6 +476,8 @@ def classify_loss(case):
         labels.append('two_proxies_same_object')
     if any(o[0].endswith('_cancel') for o in ops):
         labels.append('cancel')
+    if any(o[0] == 'proxy_signal' for o in ops) and any(o[0] == 'proxy' for o in ops):
+        labels.append('signal_subscription')
     return ('call_with_timer' in labels or 'proxy_callback' in labels), sorted(set(labels))
 
 
@@ -473,7 +488,7 @@ def loss_case(draw, tier):
     ncalls = 0
     for _ in range(n):
         k = draw(st.sampled_from(['call', 'call', 'reply', 'error_reply', 'conn_cb', 'conn_cb_cancel', 'proxy', 'proxy', 'proxy_cb',
-                                  'proxy_cb', 'proxy_cb_cancel', 'advance']))
+                                  'proxy_cb', 'proxy_cb_cancel', 'proxy_signal', 'advance']))
         if k == 'call':
             if ncalls >= 4:
                 continue
@@ -485,7 +500,7 @@ def loss_case(draw, tier):
                         draw(st.sampled_from(['/obj', '/obj', '/other']))])
         elif k == 'advance':
             ops.append(['advance', draw(st.sampled_from([1, 4, 6, 30]))])
-        elif k in ('reply', 'error_reply', 'conn_cb_cancel', 'proxy_cb', 'proxy_cb_cancel'):
+        elif k in ('reply', 'error_reply', 'conn_cb_cancel', 'proxy_cb', 'proxy_cb_cancel', 'proxy_signal'):
             ops.append([k, draw(st.integers(0, 5))])
         else:
             ops.append([k])
@@ -500,6 +515,10 @@ def enum_loss(tier):
                        ['proxy_cb', 0], ['proxy_cb_cancel', 1]]}
     yield {'ops': [['call', None], ['call', 5], ['call', 20], ['call', 1], ['advance', 4], ['reply', 0], ['conn_cb'],
                    ['conn_cb'], ['conn_cb_cancel', 0]]}
+    # a live proxy holding signal subscriptions (acknowledged and not) when the connection goes down
+    for mode in ('explicit', 'known', 'introspect'):
+        yield {'ops': [['proxy', mode, '/obj'], ['proxy_signal', 1], ['proxy_signal', 2], ['proxy_signal', 0], ['proxy_cb', 0],
+                       ['call', 5], ['call', None], ['conn_cb']]}
     # calls completed by method returns and by error replies (with and without body, with and without deadline)
     # while others stay in flight and a proxy waits for the disconnect
     for first in (['error_reply', 0], ['error_reply', 1], ['reply', 0]):
